@@ -9,7 +9,7 @@ through the public API of SequenceParameters wrappers.
 import copy
 
 from ..kernel import Violation, DrawCap, feq, canon, cjson
-from ..gen import gen_seq, seq_class_of, AA, gen_special
+from ..gen import gen_seq, seq_class_of, AA, gen_special, gen_two_digit_counts, concat_collision, same_classes_other_letters
 from ..clock import SimClock, MODES
 from ..rng import RngModule, MTRandom, TapeRandom, UniformDriver, ListDriver
 from ..minimise import list_candidates
@@ -54,6 +54,16 @@ def gen_plan(streams, tier):
         else:
             roots.append(gen_seq(rnd, n, rnd.choice(("idp", "polyampholyte", "polyampholyte", "polyelectrolyte", "lowcomplexity",
                                                       "nocharge", "uniform", "onecharge", "sty_rich"))))
+    related = None
+    if rnd.random() < 0.12:
+        # a cold object next to a relative whose delta-max is computed first: glued-count collision, same class
+        # counts with other letters, or a tandem repeat (caches shared between objects must not leak)
+        a0 = gen_two_digit_counts(rnd)
+        rel = concat_collision(rnd, a0) or same_classes_other_letters(rnd, a0)
+        if rnd.random() < 0.3:
+            rel = same_classes_other_letters(rnd, a0)
+        roots = [a0, rel]
+        related = True
     rng_mode = rnd.choice(("mt", "mt", "tape", "tape", "biased", "biased"))
     clock_mode = rnd.choice(MODES)
     move_w = {m: rnd.choice((0, 1, 1, 2)) for m in MOVES}
@@ -61,6 +71,12 @@ def gen_plan(streams, tier):
         move_w["full_shuffle"] = 1
     ops = []
     nops = rnd.randrange(4, 17)
+    if related:
+        m0 = rnd.choice(MOVES)
+        ops.append({"k": "warm", "o": 1, "how": rnd.choice(("kappa", "dmax", "dmax_perm"))})
+        op = {"k": "move", "o": 0, "m": m0, "panel": rnd.random() < 0.5}
+        op.update(gen_frozen(rnd, allow_list=(m0 == "full_shuffle")))
+        ops.append(op)
     for _ in range(nops):
         x = rnd.random()
         o = rnd.randrange(0, 50)
@@ -173,6 +189,10 @@ def corpus():
        [{"k": "warm", "o": o, "how": "kappa"} for o in (0, 1, 2)] +
        [{"k": "move", "o": o, "m": m, "fz": "none", "ft": "set", "panel": True} for o in (0, 1, 2) for m in ("full_shuffle", "swapRandChargeRes")] +
        [{"k": "shuffle_api", "o": o, "fz": "none", "ft": "set", "panel": False} for o in (0, 1, 2)])
+    mk("cold_parent_next_to_warm_relatives", ["KKKKKKKKKKKEEGSTAPQ", "KEEEEEEEEEEEEGSTAPQ", "RRRRRRRRRRRDDAGSTPN"],
+       [{"k": "warm", "o": 1, "how": "dmax"}, {"k": "move", "o": 0, "m": "full_shuffle", "fz": "none", "ft": "set", "panel": False},
+        {"k": "warm", "o": 2, "how": "kappa"}, {"k": "move", "o": 0, "m": "swapRandChargeRes", "fz": "none", "ft": "set", "panel": False},
+        {"k": "warm", "o": 1, "how": "dmax_perm"}, {"k": "shuffle_api", "o": 0, "fz": "none", "ft": "set", "panel": True}])
     mk("same_seed_twice", ["GKEGKEGKEGKEGSTY"], [{"k": "move", "o": 0, "m": "full_shuffle", "fz": "none", "ft": "set", "panel": False}] * 4,
        rng_mode="mt", clock_mode="stall")
     # scripted tape: 98 delta-preserving block proposals (G<->G), then one that changes delta on the 99th attempt
